@@ -76,8 +76,9 @@ class Result:
 # ---------------------------------------------------------------------------------------------
 
 HEADER = '''# generated harness -- regenerated from /verif on every run; imports mappyfile from /repo
-import sys, os
+import sys, os, logging
 sys.path.insert(0, %r)
+logging.disable(logging.CRITICAL)   # logging is not the subject: a disabled logger returns before time.time()/formatting (nondeterministic under CrossHair)
 ''' % VERIF
 
 
